@@ -490,6 +490,32 @@ def _fresh_container(v: ast.AST) -> bool:
     return False
 
 
+def _shallow_of_foreign(v: ast.AST) -> str | None:
+    """the foreign container whose *values* the fresh container v still shares (shallow copy), if any"""
+    def foreign(e: ast.AST) -> str | None:
+        d = dotted(e)
+        return d if d and "." in d and d.split(".")[-1].isupper() else None
+
+    if isinstance(v, ast.Dict):
+        for k, val in zip(v.keys, v.values):
+            if k is None:  # **spread
+                fo = foreign(val)
+                if fo:
+                    return fo
+    if isinstance(v, ast.Call):
+        cn = (call_name(v) or "").split(".")[-1]
+        if cn in ("dict", "defaultdict", "OrderedDict", "list", "set") and v.args:
+            for a in v.args:
+                fo = foreign(a)
+                if fo:
+                    return fo
+        if isinstance(v.func, ast.Attribute) and v.func.attr == "copy" and not v.args:
+            return foreign(v.func.value)
+        if cn == "copy" and v.args:
+            return foreign(v.args[0])
+    return None
+
+
 def rule_c(ctx: Ctx) -> None:
     ctx.rule(
         "C15.c",
@@ -533,7 +559,24 @@ def rule_c(ctx: Ctx) -> None:
                 continue
             nb += 1
             where = f"{cdef.key}:<class body>"
-            if isinstance(target, ast.Name) and target.id in bound and _fresh_container(bound[target.id]):
+            shared_from = _shallow_of_foreign(bound[target.id]) if isinstance(target, ast.Name) and target.id in bound else None
+            inplace_on_element = isinstance(st, ast.AugAssign) and isinstance(st.target, ast.Subscript) and isinstance(st.op, (ast.BitOr, ast.BitAnd, ast.Sub, ast.Add, ast.BitXor))
+            elem_mutator = isinstance(st, ast.Expr) and isinstance(st.value, ast.Call) and isinstance(st.value.func, ast.Attribute) and isinstance(st.value.func.value, ast.Subscript)
+            if shared_from and (inplace_on_element or elem_mutator):
+                # `T = {**Other.T}; T[k] |= {...}` — the dict is new but its values are still Other's objects: `|=` updates Other's set in place
+                key_txt = norm(st.target.slice if inplace_on_element else st.value.func.value.slice, 40)
+                fresh_keys = {norm(k_, 40) for k_ in getattr(bound[target.id], "keys", []) if k_ is not None}
+                rebound_before = any(
+                    isinstance(p_, ast.Assign) and any(isinstance(tg_, ast.Subscript) and norm(tg_.value) == target.id and norm(tg_.slice, 40) == key_txt for tg_ in p_.targets)
+                    for p_ in cdef.node.body[: cdef.node.body.index(st)]
+                )
+                if key_txt in fresh_keys or rebound_before:
+                    ctx.ok(f"{where}|{norm(st)}", {"stmt": norm(st), "element": "bound to a fresh value in this class body"})
+                else:
+                    ctx.fail(m, st, where, st,
+                             f"{target.id} is a shallow copy of {shared_from}: the element {target.id}[{key_txt}] is still {shared_from}'s own object, and this in-place update "
+                             f"changes it for every user of {shared_from} as soon as this module is imported (results depend on which dialects were loaded before)")
+            elif isinstance(target, ast.Name) and target.id in bound and _fresh_container(bound[target.id]):
                 ctx.ok(f"{where}|{norm(st)}", {"stmt": norm(st), "container": f"{target.id} = {norm(bound[target.id], 50)}", "fresh": True})
             else:
                 src = norm(bound[target.id], 60) if isinstance(target, ast.Name) and target.id in bound else "not bound in this class body"
